@@ -461,7 +461,8 @@ def validate(trace_module, cfg, event_lists, known_ids, tag, chunk_events=4000, 
 # known findings
 # ---------------------------------------------------------------------------------------------
 def load_known(prop):
-    path = os.path.join(ROOT, "known_findings.json")
+    # (VERIF_KNOWN: development aid for trying a repair - an alternative list; evidence then goes to scratch)
+    path = os.environ.get("VERIF_KNOWN") or os.path.join(ROOT, "known_findings.json")
     if not os.path.exists(path):
         return []
     with open(path) as f:
@@ -576,7 +577,7 @@ class Check:
         # (VERIF_REPO), replays and development runs write theirs under work/ instead
         edir = os.path.join(ROOT, "evidence")
         if (os.path.realpath(REPO) != "/repo" or os.environ.get("VERIF_DEBUG_SKIP_MC")
-                or os.environ.get("VERIF_NO_EVIDENCE") or getattr(self, "is_replay", False)):
+                or os.environ.get("VERIF_NO_EVIDENCE") or os.environ.get("VERIF_KNOWN") or getattr(self, "is_replay", False)):
             edir = os.path.join(WORK, "evidence-scratch")
             os.makedirs(edir, exist_ok=True)
         with open(os.path.join(edir, f"{self.prop}.json"), "w") as f:
